@@ -6,11 +6,15 @@
   After the setup (explicit grid, size estimate, placement, track initialisation, track indexes — all independent of the
   children's answers, and independent of the input when the templates have no `auto-fill`/`auto-fit` repetition) the only
   panics of `compute_grid_layout` are slice indexings into the two track vectors (by the items' track indexes, by the
-  absolutely positioned children's resolved lines) and `into_track_vec_index`' `assert!`s for absolutely positioned
-  children.  They cannot occur when, for the `Setup` that the setup produces,
-    * every item's track range is non-empty and inside the track vector, in both axes (`AllR`), and
-    * every absolutely positioned child's lines resolve to indexes inside the track vectors (`absOKb`)
-  — both are checked by evaluation on a concrete container (`suOKb`).
+  absolutely positioned children's resolved lines) and the checked integer arithmetic on the lines of absolutely
+  positioned children.  They cannot occur when, for the `Setup` that the setup produces,
+    * every item's track range is non-empty and inside the track vector, in both axes (`AllR`),
+    * the track vectors have (at least) one entry per line and per track of the final counts (`vecLen`), and
+    * the i16/u16 arithmetic that resolves an absolutely positioned child's lines does not overflow (`absOKb`).  That the
+      resolved lines lie inside the track vectors is no longer a condition: since the repair of
+      "absolutely positioned children create implicit tracks" `try_into_track_vec_index` answers `None` for a line outside
+      the implicit grid (`absTrackIndexes_in`) instead of `assert!`ing
+  — all checked by evaluation on a concrete container (`suOKb`).
 -/
 import TaffyVerif.Lemmas.EvalGridSafe2
 import TaffyVerif.Lemmas.EvalGridTrees
@@ -73,17 +77,94 @@ def optIn (L : Nat) : Option Int → Bool
   | none => true
   | some i => decide (i.toNat < L)
 
-/-- the lines of an absolutely positioned child resolve, to indexes inside the track vectors -/
-def absChildOK (cs : GridChildStyle α) (colCounts rowCounts : GridPlacement.TrackCounts) (Lc Lr : Nat) : Bool :=
+/-- the lines of an absolutely positioned child resolve without i16/u16 overflow (that they then lie inside the track
+vectors is what `try_into_track_vec_index` guarantees: `absTrackIndexes_in`) -/
+def absChildOK (cs : GridChildStyle α) (colCounts rowCounts : GridPlacement.TrackCounts) : Bool :=
   match absTrackIndexes cs.gridColumn colCounts, absTrackIndexes cs.gridRow rowCounts with
-  | .ok ci, .ok ri => optIn Lc ci.start && optIn Lc ci.end && optIn Lr ri.start && optIn Lr ri.end
+  | .ok _, .ok _ => true
   | _, _ => false
 
 /-- … for every absolutely positioned child that generates a box -/
-def absOKb (childStyles : List (GridChildStyle α)) (colCounts rowCounts : GridPlacement.TrackCounts) (Lc Lr : Nat) :
-    Bool :=
+def absOKb (childStyles : List (GridChildStyle α)) (colCounts rowCounts : GridPlacement.TrackCounts) : Bool :=
   childStyles.all fun cs =>
-    cs.base.isHidden || !(cs.base.position == .absolute) || absChildOK cs colCounts rowCounts Lc Lr
+    cs.base.isHidden || !(cs.base.position == .absolute) || absChildOK cs colCounts rowCounts
+
+/-- the number of entries of a track vector for these counts: a gutter at each line, a track between two lines -/
+def vecLen (c : GridPlacement.TrackCounts) : Int := 2 * (c.negativeImplicit + c.explicit + c.positiveImplicit) + 1
+
+/-- `try_into_track_vec_index` answers `None` or the index of a line of the implicit grid -/
+theorem tryIntoTrackVecIndex_spec {line i : Int} {c : GridPlacement.TrackCounts}
+    (h : tryIntoTrackVecIndex line c = .ok (some i)) : 0 ≤ i ∧ i + 1 ≤ vecLen c := by
+  unfold tryIntoTrackVecIndex at h
+  simp only [GridPlacement.bind_eq, GridPlacement.bind_eq_ok] at h
+  obtain ⟨n, hn, negN, hnn, h⟩ := h
+  obtain ⟨en, -, -⟩ := GridPlacement.i16_eq_ok.1 hn
+  obtain ⟨enn, -, -⟩ := GridPlacement.i16_eq_ok.1 hnn
+  split at h
+  · cases h
+  · rename_i h1
+    simp only [GridPlacement.bind_eq, GridPlacement.bind_eq_ok] at h
+    obtain ⟨s, hs, s16, hs16, h⟩ := h
+    obtain ⟨es, -, -⟩ := GridPlacement.u16_eq_ok.1 hs
+    obtain ⟨es16, -, -⟩ := GridPlacement.i16_eq_ok.1 hs16
+    split at h
+    · cases h
+    · rename_i h2
+      simp only [GridPlacement.bind_eq, GridPlacement.bind_eq_ok] at h
+      obtain ⟨j, hj, h⟩ := h
+      have ej : j = i := by
+        simp only [GridPlacement.pure_eq, GridPlacement.Outcome.ok.injEq, Option.some.injEq] at h
+        exact h
+      subst ej
+      -- `into_track_vec_index`: the index is `2 * (line + negative_implicit)`
+      unfold intoTrackVecIndex at hj
+      simp only [GridPlacement.bind_eq, GridPlacement.bind_eq_ok] at hj
+      obtain ⟨n', hn', negN', hnn', hj⟩ := hj
+      obtain ⟨en', -, -⟩ := GridPlacement.i16_eq_ok.1 hn'
+      split at hj
+      · cases hj
+      · simp only [GridPlacement.bind_eq, GridPlacement.bind_eq_ok] at hj
+        obtain ⟨s', hs', s16', hs16', hj⟩ := hj
+        split at hj
+        · cases hj
+        · simp only [GridPlacement.bind_eq, GridPlacement.bind_eq_ok] at hj
+          obtain ⟨t, ht, u, hu, hj⟩ := hj
+          obtain ⟨et, -, -⟩ := GridPlacement.i16_eq_ok.1 ht
+          obtain ⟨eu, hu0, -⟩ := GridPlacement.usize_eq_ok.1 hu
+          obtain ⟨ej, -, -⟩ := GridPlacement.usize_eq_ok.1 hj
+          unfold vecLen
+          subst en enn es es16 en' et eu ej
+          omega
+
+theorem absLineIndex_in {counts : GridPlacement.TrackCounts} {o r : Option Int} {L : Nat}
+    (h : absLineIndex counts o = .ok r) (hL : vecLen counts ≤ (L : Int)) : optIn L r = true := by
+  cases o with
+  | none =>
+    have : r = none := by
+      simp only [absLineIndex, GridPlacement.pure_eq, GridPlacement.Outcome.ok.injEq] at h
+      exact h.symm
+    subst this
+    rfl
+  | some l =>
+    cases r with
+    | none => rfl
+    | some i =>
+      obtain ⟨h0, h1⟩ := tryIntoTrackVecIndex_spec (show tryIntoTrackVecIndex l counts = .ok (some i) from h)
+      simp only [optIn, decide_eq_true_eq]
+      omega
+
+/-- the resolved lines of an absolutely positioned child are `None` or indexes inside a track vector of the right length -/
+theorem absTrackIndexes_in {pl : Line GridPlacement.Placement} {counts : GridPlacement.TrackCounts}
+    {r : Line (Option Int)} {L : Nat} (h : absTrackIndexes pl counts = .ok r) (hL : vecLen counts ≤ (L : Int)) :
+    optIn L r.start = true ∧ optIn L r.end = true := by
+  unfold absTrackIndexes at h
+  simp only [GridPlacement.bind_eq, GridPlacement.bind_eq_ok] at h
+  obtain ⟨oz, -, q, -, s, hs, e, he, h⟩ := h
+  have : r = ⟨s, e⟩ := by
+    simp only [GridPlacement.pure_eq, GridPlacement.Outcome.ok.injEq] at h
+    exact h.symm
+  subst this
+  exact ⟨absLineIndex_in hs hL, absLineIndex_in he hL⟩
 
 theorem GSafe_optOffset (tracks : List (GridTrack α)) (i : Option Int) (d : α) (h : optIn tracks.length i = true) :
     GSafe (fun _ => True) (optOffset tracks i d) := by
@@ -94,13 +175,14 @@ theorem GSafe_optOffset (tracks : List (GridTrack α)) (i : Option Int) (d : α)
 
 theorem GSafe_hiddenAbsLoop (c : Ctx α) (bb : Size α) (rows columns : List (GridTrack α))
     (cc rc : GridPlacement.TrackCounts) : ∀ (l : List (GridChildStyle α)) (index order : Nat) (acc : Size α),
-    absOKb l cc rc columns.length rows.length = true →
+    absOKb l cc rc = true → vecLen cc ≤ (columns.length : Int) → vecLen rc ≤ (rows.length : Int) →
       GSafe (fun _ => True) (hiddenAbsLoop c bb rows columns cc rc l index order acc)
-  | [], _, _, _, _ => GSafe_pure _ _ trivial
-  | cs :: rest, index, order, acc, h => by
+  | [], _, _, _, _, _, _ => GSafe_pure _ _ trivial
+  | cs :: rest, index, order, acc, h, hLc, hLr => by
     simp only [absOKb, List.all_cons, Bool.and_eq_true] at h
     obtain ⟨h0, hrest⟩ := h
     have ih := fun i o a => GSafe_hiddenAbsLoop c bb rows columns cc rc rest i o a (by simpa [absOKb] using hrest)
+      hLc hLr
     unfold hiddenAbsLoop
     split
     · refine GSafe_bind (fun _ => True) _ _ _ (GSafe_call _ _ _ fun _ => trivial) fun _ _ => ?_
@@ -112,8 +194,8 @@ theorem GSafe_hiddenAbsLoop (c : Ctx α) (bb : Size α) (rows columns : List (Gr
         unfold absChildOK at h0
         split at h0
         · rename_i ci ri hci hri
-          simp only [Bool.and_eq_true] at h0
-          obtain ⟨⟨⟨a1, a2⟩, a3⟩, a4⟩ := h0
+          obtain ⟨a1, a2⟩ := absTrackIndexes_in hci hLc
+          obtain ⟨a3, a4⟩ := absTrackIndexes_in hri hLr
           rw [hci, hri]
           show GSafe _ (pure ci >>= fun colIdx => pure ri >>= fun rowIdx => _)
           refine GSafe_bind (fun x => x = ci) _ _ _ (GSafe_pure _ _ rfl) fun colIdx e1 => ?_
@@ -134,7 +216,9 @@ structure SuOK (childStyles : List (GridChildStyle α)) (su : Setup α) : Prop w
   cols : AllR .inl su.columns.length su.items
   rows : AllR .blk su.rows.length su.items
   nodes : ∀ it ∈ su.items, it.node < childStyles.length
-  abs : absOKb childStyles su.finalColCounts su.finalRowCounts su.columns.length su.rows.length = true
+  abs : absOKb childStyles su.finalColCounts su.finalRowCounts = true
+  lenC : vecLen su.finalColCounts ≤ (su.columns.length : Int)
+  lenR : vecLen su.finalRowCounts ≤ (su.rows.length : Int)
 
 theorem node_of_frame {a b : GItem α} (h : frame a = frame b) : a.node = b.node := by
   rw [← node_frame a, h, node_frame]
@@ -143,7 +227,8 @@ theorem GSafe_gridTail (c : Ctx α) (childStyles : List (GridChildStyle α)) (bb
     (cc rc : GridPlacement.TrackCounts) (columns rows : List (GridTrack α)) (items : List (GItem α))
     (hc : AllR .inl columns.length items) (hr : AllR .blk rows.length items)
     (hn : ∀ it ∈ items, it.node < childStyles.length)
-    (ha : absOKb childStyles cc rc columns.length rows.length = true) :
+    (ha : absOKb childStyles cc rc = true) (hLc : vecLen cc ≤ (columns.length : Int))
+    (hLr : vecLen rc ≤ (rows.length : Int)) :
     GSafe (fun _ => True) (gridTail c childStyles bb cb cc rc columns rows items) := by
   unfold gridTail
   simp only []
@@ -155,8 +240,8 @@ theorem GSafe_gridTail (c : Ctx α) (childStyles : List (GridChildStyle α)) (bb
     (by rw [lc]; exact fun x hx => hc x (hperm.mem_iff.1 hx))
     (fun x hx => hn x (hperm.mem_iff.1 hx))) fun ⟨items', ics⟩ _ => ?_
   simp only []
-  refine GSafe_bind _ _ _ _ (GSafe_hiddenAbsLoop c bb _ _ cc rc childStyles 0 _ _ (by rw [lc, lr]; exact ha))
-    fun _ _ => ?_
+  refine GSafe_bind _ _ _ _ (GSafe_hiddenAbsLoop c bb _ _ cc rc childStyles 0 _ _ ha (by rw [lc]; exact hLc)
+    (by rw [lr]; exact hLr)) fun _ _ => ?_
   split <;> exact GSafe_pure _ _ trivial
 
 theorem GSafe_gridStep7 (c : Ctx α) (childStyles : List (GridChildStyle α)) (availableSpace : Size (AvailableSpace α))
@@ -165,7 +250,8 @@ theorem GSafe_gridStep7 (c : Ctx α) (childStyles : List (GridChildStyle α)) (a
     (hcol : colArgs.axis = .inl) (hrow : rowArgs.axis = .blk)
     (hc : AllR .inl columns.length items) (hr : AllR .blk rows.length items)
     (hn : ∀ it ∈ items, it.node < childStyles.length)
-    (ha : absOKb childStyles cc rc columns.length rows.length = true) :
+    (ha : absOKb childStyles cc rc = true) (hLc : vecLen cc ≤ (columns.length : Int))
+    (hLr : vecLen rc ≤ (rows.length : Int)) :
     GSafe (fun _ => True)
       (gridStep7 c childStyles availableSpace colArgs rowArgs inner bb cb cc rc columns rows items) := by
   unfold gridStep7
@@ -188,7 +274,8 @@ theorem GSafe_gridStep7 (c : Ctx α) (childStyles : List (GridChildStyle α)) (a
   simp only [] at l1 l2 f4 ⊢
   have s4 : FSub items items' := s3.trans f4
   refine GSafe_gridTail c childStyles bb cb cc rc columns' rows' items'
-    (by rw [l1, lc]; exact hc.sub s4) (by rw [l2, lr]; exact hr.sub s4) ?_ (by rw [l1, l2, lc, lr]; exact ha)
+    (by rw [l1, lc]; exact hc.sub s4) (by rw [l2, lr]; exact hr.sub s4) ?_ ha (by rw [l1, lc]; exact hLc)
+    (by rw [l2, lr]; exact hLr)
   intro x hx
   obtain ⟨y, hy, e⟩ := s4 x hx
   rw [node_of_frame e]; exact hn y hy
@@ -213,7 +300,7 @@ theorem GSafe_gridMain (style : GridStyle α) (childStyles : List (GridChildStyl
   · exact GSafe_pure _ _ trivial
   · refine GSafe_gridStep7 _ childStyles _ _ _ _ _ _ _ _ _ _ _ rfl rfl
       (by rw [l2', l1]; exact hok.cols.sub f2') (by rw [l2, l1']; exact hok.rows.sub f2') ?_
-      (by rw [l2', l1, l2, l1']; exact hok.abs)
+      hok.abs (by rw [l2', l1]; exact hok.lenC) (by rw [l2, l1']; exact hok.lenR)
     intro x hx
     obtain ⟨y, hy, e⟩ := f2' x hx
     rw [node_of_frame e]; exact hok.nodes y hy
